@@ -263,7 +263,7 @@ S = {
  "C11-5": ("C11", "/tmp/seed3/C11/_seed/3", "seed3_demo3_test.go", "^(TestSeed3Demo3_)", ".", ['C11'], "",
    "Replica.Restore: shadowed err drops every non-ENOSPC fsync error, the database is renamed into place unflushed",
    "fsync of <out>.tmp failing with a non-disk-full error (EIO)"),
- "C14-3": ("C14", "/tmp/seed3/C14/_seed/1", "seed3_demo1_test.go", "^(TestSeed3Demo1_)", ".", ['C14'], "",
+ "C14-3": ("C14", "/tmp/seed3/C14/_seed/1", "seed3_demo1_test.go", "^(TestSeed3Demo1_)", ".", ['C14', 'C12'], "",
    "DB.Close removes <db>-wal and <db>-shm when the WAL is 0 bytes long",
    "application connection still open and the WAL emptied by the application's TRUNCATE checkpoint while Close waits for an in-flight snapshot stream"),
  "C14-4": ("C14", "/tmp/seed3/C14/_seed/2", "seed3_demo2_test.go", "^(TestSeed3Demo2_)", ".", ['C14', 'C10'], "",
